@@ -91,6 +91,11 @@ def check_energies(ctx: Ctx, c: Dict[str, Any]) -> None:
             ("divergence_loss", lambda r: L.divergence_loss(u, mode=mode, spacing=h, reduction=r), "divergence", 2),
             ("total_variation_loss", lambda r: L.total_variation_loss(u, mode=mode, spacing=h, reduction=r), "tv", 1),
             ("grad_loss", lambda r: L.grad_loss(u, p=2, q=1, mode=mode, spacing=h, reduction=r), "sqgrad", 2),
+            ("grad_loss[p=3]", lambda r: L.grad_loss(u, p=3, q=1, mode=mode, spacing=h, reduction=r), "cubgrad", 3),
+            ("grad_loss[p=4]", lambda r: L.grad_loss(u, p=4, q=1, mode=mode, spacing=h, reduction=r), "quartgrad", 4),
+            ("grad_loss[p=1]", lambda r: L.grad_loss(u, p=1, q=1, mode=mode, spacing=h, reduction=r), "tv", 1),
+            ("grad_loss[p=3,-u]", lambda r: L.grad_loss(-u, p=3, q=1, mode=mode, spacing=h, reduction=r), "cubgrad", 3),
+            ("GradLoss[p=3]", lambda r: LF.GradLoss(p=3, q=1, mode=mode, spacing=h, reduction=r)(u), "cubgrad", 3),
             ("elasticity_loss", lambda r: L.elasticity_loss(u, first_parameter=lam1, second_parameter=mu1, mode=mode, spacing=h, reduction=r), ("elasticity", 0), 2),
             ("elasticity_loss[mu only]", lambda r: L.elasticity_loss(u, first_parameter=0.0, second_parameter=1.0, mode=mode, spacing=h, reduction=r), ("elasticity", 1), 2),
         ]
@@ -110,6 +115,18 @@ def check_energies(ctx: Ctx, c: Dict[str, Any]) -> None:
             m_ = guarded(name, lambda: fn("mean"), mode=ms)
             if m_ is not None and not close(float(m_), float(out.mean()), float(out.abs().max())):
                 bad(name, "'mean' is not the mean of 'none'", mode=ms, what="reduction")
+    # powers of the norm: q = None means 1 / p, q = 0 the absolute value of the plain sum (p = 0)
+    for name, kw, key, fnq in (("grad_loss[p=3,q=None]", dict(p=3, q=None), "cubgrad", lambda e: e ** (1.0 / 3.0)), ("grad_loss[p=2,q=0.5]", dict(p=2, q=0.5), "sqgrad", math.sqrt),
+                               ("grad_loss[p=0,q=0]", dict(p=0, q=0), "sumgrad", abs), ("grad_loss[p=4,q=2]", dict(p=4, q=2), "quartgrad", lambda e: e * e)):
+        out = guarded(name, lambda: L.grad_loss(u, mode="forward_central_backward", spacing=h, reduction="none", **kw))
+        if out is None:
+            continue
+        for pr in c["probes"]:
+            e = fnq(float(fl(F(pr[key]))))
+            g = val_at(out, pr["i"])
+            if not (abs(g - e) <= 1e-4 * max(1.0, abs(e))):
+                bad(name, f"value {g} at interior sample {pr['i']}, definition gives {e}", what="value")
+                break
     # gradient terms vanish for translations, all terms for linear transformations (given as matrices)
     if all(all(v == [0, 1] for v in comp["L"]) for comp in fld) and affine:
         for name, fn in (("diffusion_loss", L.diffusion_loss), ("total_variation_loss", L.total_variation_loss), ("divergence_loss", L.divergence_loss)):
@@ -142,6 +159,19 @@ def check_energies(ctx: Ctx, c: Dict[str, Any]) -> None:
         b_ = guarded(fn.__name__, lambda: fn(u, mode="forward_central_backward", spacing=h))
         if a_ is not None and b_ is not None and not close(float(a_), float(b_)):
             bad(cls.__name__, "loss class differs from the functional form", what="class")
+    # ... with every constructor option set (the module must hand each of them on): 'none' maps compared entry by entry
+    h2 = [1.5 * v for v in h]
+    for cls, fn, kw in ((LF.Bending, L.bending_loss, {}), (LF.Curvature, L.curvature_loss, {}), (LF.Diffusion, L.diffusion_loss, {}), (LF.Divergence, L.divergence_loss, {}),
+                        (LF.TotalVariation, L.total_variation_loss, {}), (LF.GradLoss, L.grad_loss, dict(p=3, q=0.5)),
+                        (LF.Elasticity, L.elasticity_loss, dict(first_parameter=1.5, second_parameter=0.25)), (LF.Elasticity, L.elasticity_loss, dict(poissons_ratio=0.25, youngs_modulus=2.0))):
+        for okw in (dict(mode="central", spacing=h2), dict(mode="sobel", spacing=h2[0]), dict(sigma=0.7, spacing=h2), dict(spacing=h2, reduction="sum")):
+            full = dict(reduction="none", **kw)
+            full.update(okw)
+            a_ = guarded(cls.__name__, lambda: cls(**full)(u), options=sorted(okw))
+            b_ = guarded(fn.__name__, lambda: fn(u, **full), options=sorted(okw))
+            if a_ is not None and b_ is not None and (a_.shape != b_.shape or max_err(a_, b_) > 1e-9 * max(1.0, float(b_.abs().max()))):
+                bad(cls.__name__, f"loss class constructed with {sorted(full)} differs from the functional form with the same options", what="class_options", options=sorted(okw))
+                break
     ctx.count(key=json.dumps(["energies", n, c["h"], fld]), nontrivial=True)
 
 
@@ -175,6 +205,9 @@ def check_bspline(ctx: Ctx, c: Dict[str, Any]) -> None:
                 b2 = L.bending_loss(data, mode="bspline", stride=stride, spacing=dflt, reduction="none")
                 if max_err(b1, b2) > REL * max(1.0, float(b2.abs().max())):
                     ctx.violation(dict(**sig, what="default_spacing"), "bspline_bending_loss differs from bending_loss(mode='bspline') with the documented default spacing", c)
+                mn = BSplineBending(stride=stride, reduction="none")(data)
+                if tuple(mn.shape) != tuple(b1.shape) or max_err(mn, b1) > REL * max(1.0, float(b1.abs().max())):
+                    ctx.violation(dict(**sig, what="class_none"), f"BSplineBending(stride={stride}, reduction='none') has shape {tuple(mn.shape)}, bspline_bending_loss gives {tuple(b1.shape)}", c)
                 m1 = BSplineBending(stride=stride)(data)
                 if abs(float(m1) - float(b1.mean())) > REL * max(1.0, float(b1.abs().max())):
                     ctx.violation(dict(**sig, what="class"), "BSplineBending differs from bspline_bending_loss", c)
